@@ -9,7 +9,7 @@ import (
 
 // C15 — Transfer copies everything or reports failure, and never touches the source.
 
-var c15Forms = []string{"native", "alias", "ptr-alias", "ptr-native", "read-only", "zero", "int", "nil", "zero-alias", "nil-ptr-alias", "nonest-dst"}
+var c15Forms = []string{"native", "alias", "ptr-alias", "ptr-native", "read-only", "zero", "int", "nil", "zero-alias", "nil-ptr-alias", "nonest-dst", "read-only-ptr-native", "read-only-alias", "read-only-ptr-alias"}
 
 const (
 	c15Src  = 7
@@ -18,7 +18,10 @@ const (
 	c15Nil  = 3
 )
 
-func c15Total() int { return c15Src * c15Dst * c15Caps * 2 * c15Nil * len(c15Forms) }
+func c15Total() int { return c15Src*c15Dst*c15Caps*2*c15Nil*len(c15Forms) + c15Large }
+
+// large sources (pre-sizing / bulk paths): 1..200 elements into fresh or capacity-limited destinations
+const c15Large = 600
 
 type c15Case struct {
 	SrcLen     int    `json:"src_len"`
@@ -29,6 +32,7 @@ type c15Case struct {
 	Form       string `json:"dst_form"`
 	Kinds      string `json:"kinds"`
 	DstHistory bool   `json:"dst_with_history,omitempty"`
+	DstMutex   bool   `json:"dst_mutex,omitempty"`
 }
 
 func c15Decode(idx int) c15Case {
@@ -69,7 +73,70 @@ func showList(a []any) string {
 	return m.String()
 }
 
+func c15RunLarge(c *core.Ctx) {
+	r := c.Rng
+	n := []int{1, 8, 63, 64, 65, 100, 128, 200}[r.Intn(8)]
+	src := NewStack(Kinds[r.Intn(5)], 0)
+	for i := 0; i < n; i++ {
+		src.Push(i + 1)
+	}
+	capacity := []int{0, 0, n - 1, n, n + 5}[r.Intn(5)]
+	if capacity < 0 {
+		capacity = 0
+	}
+	dst := NewStack(Kinds[r.Intn(5)], capacity)
+	pre := r.Intn(3)
+	if capacity > 0 && pre > capacity {
+		pre = capacity
+	}
+	for i := 0; i < pre; i++ {
+		dst.Push(fmt.Sprintf("d%d", i))
+	}
+	if r.Chance(1, 3) {
+		dst.SetMutex()
+	}
+	desc := map[string]any{"src_len": n, "dst_len": pre, "dst_cap": capacity}
+	s0, _ := Take(src)
+	d0, _ := Take(dst)
+	dst0, srcC := contentOf(dst), contentOf(src)
+	var ok bool
+	if p, msg, site := Guard(func() { ok = src.Transfer(dst) }); p {
+		c.Violatef("panic:"+site+":large", desc, "Transfer of %d elements panicked: %s", n, msg)
+		return
+	}
+	s1, _ := Take(src)
+	d1, _ := Take(dst)
+	if d := Diff(s0, s1, DiffOpts{}); d != "" {
+		c.Violatef("source-changed", desc, "source changed: %s", d)
+		return
+	}
+	fits := capacity == 0 || capacity-pre >= n
+	switch {
+	case ok:
+		want := append(append([]any{}, dst0...), srcC...)
+		if !sameContent(want, contentOf(dst)) {
+			c.Violatef("wrong-content", desc, "Transfer of %d elements returned true; destination holds %d elements, expected %d", n, dst.Len(), len(want))
+			return
+		}
+		if d1.S.Ldr {
+			c.Violatef("lock-left-held", desc, "destination lock bookkeeping still set after Transfer")
+			return
+		}
+	case !fits:
+		if d := Diff(d0, d1, DiffOpts{}); d != "" {
+			c.Violatef("partial-copy:capacity", desc, "refused transfer changed the destination: %s", d)
+			return
+		}
+	}
+	c.Count("large-sources")
+	c.NontrivialStr(core.JSON(desc))
+}
+
 func c15Run(c *core.Ctx, idx int) {
+	if idx >= c15Total()-c15Large {
+		c15RunLarge(c)
+		return
+	}
 	k := c15Decode(idx)
 	if k.Cap > 0 && k.DstLen > k.Cap {
 		c.Count("skipped.dst-longer-than-cap")
@@ -115,6 +182,10 @@ func c15Run(c *core.Ctx, idx int) {
 			dst.Push(next())
 		}
 	}
+	if r.Chance(1, 3) {
+		dst.SetMutex() // a refused or completed transfer must leave the destination's lock released
+		k.DstMutex = true
+	}
 	var arg any
 	inert := false // destination that must refuse
 	switch k.Form {
@@ -133,6 +204,16 @@ func c15Run(c *core.Ctx, idx int) {
 	case "read-only":
 		dst.SetReadOnly(true)
 		arg, inert = dst, true
+	case "read-only-ptr-native":
+		dst.SetReadOnly(true)
+		arg, inert = &dst, true
+	case "read-only-alias":
+		dst.SetReadOnly(true)
+		arg, inert = AStack(dst), true
+	case "read-only-ptr-alias":
+		dst.SetReadOnly(true)
+		a := AStack(dst)
+		arg, inert = &a, true
 	case "zero":
 		arg, inert = stackage.Stack{}, true
 	case "int":
@@ -212,15 +293,15 @@ func init() {
 		ID:    "C15",
 		Cases: func(string) int { return c15Total() },
 		Run:   c15Run,
-		Rule: "exhaustive product: source length 0..6 x destination length 0..6 x destination capacity {none,1..8} x source LIFO/FIFO x {0,1,2} nil elements in the source x destination form " +
-			"{native, alias value, pointer to alias, pointer to native, read-only, zero Stack, int, nil, zero alias, nil pointer to alias, no-nesting destination with a Stack among the source elements} (combinations with more elements than capacity skipped), random kinds; a quarter of the destinations has a history (Push, Remove, Push, Pop) so that the builtin slice capacity differs from the configured one; " +
+		Rule: "exhaustive product (plus 600 large-source cases of 1..200 elements): source length 0..6 x destination length 0..6 x destination capacity {none,1..8} x source LIFO/FIFO x {0,1,2} nil elements in the source x destination form " +
+			"{native, alias value, pointer to alias, pointer to native, read-only (native, pointer, alias, pointer to alias), zero Stack, int, nil, zero alias, nil pointer to alias, no-nesting destination with a Stack among the source elements} (combinations with more elements than capacity skipped), random kinds; a third of the destinations has the mutex enabled (its lock must be released again), a quarter has a history (Push, Remove, Push, Pop) so that the builtin slice capacity differs from the configured one; " +
 			"recursive VerifDump snapshots of source and destination before/after. non-trivial = source length >= 2 and a live destination that is either partly filled (0 < free < len(src)) or non-empty with room; distinct = case tuple.",
 		Assumptions: []string{
 			"a false result although everything would fit is counted (outcome.refused-with-room) but not judged: the statement only forbids false success, partial copies under capacity shortage, and changes to inert destinations or to the source",
 		},
 		Floors: func(string) map[string]int64 {
-			return map[string]int64{"outcome.refused-capacity": 500, "outcome.refused-inert": 1000, "nontrivial": 1000}
+			return map[string]int64{"outcome.refused-capacity": 500, "outcome.refused-inert": 1000, "nontrivial": 1000, "large-sources": 300}
 		},
-		Exhaustive: func(string) bool { return true },
+		Exhaustive: func(string) bool { return false },
 	})
 }
